@@ -153,6 +153,12 @@ type Engine struct {
 	curFrame  *Frame
 	typeIDs   map[string]int
 	contracts map[string]*Contract
+	globals   []*GlobalInv
+	specPaths int
+	opaqueT   map[string]bool // spec functions kept uninterpreted while the current target is verified
+	heapTouch int
+	pure      map[string]*pureMemo
+	pathBase  int
 	modularUsed map[string]bool
 }
 
@@ -209,6 +215,9 @@ func (e *Engine) assume(s *State, t Term) {
 	}
 	s.pc = append(s.pc, t)
 	s.pcB = append(s.pcB, false)
+	if s.quant == 0 {
+		e.learn(s, t) // an assumed equality var = const is propagated along the path
+	}
 }
 
 func (e *Engine) branch(s *State, t Term) {
@@ -279,7 +288,7 @@ func (e *Engine) site(in ssa.Instruction) string {
 
 var symRe = regexp.MustCompile(`[A-Za-z_$][A-Za-z0-9_$.!]*`)
 
-const prelude = "(set-logic ALL)\n(declare-sort Str 0)\n(define-sort Ref () Int)\n"
+const prelude = "(set-logic ALL)\n(declare-sort Str 0)\n(define-sort Ref () Int)\n" + strPrelude
 
 // ---------- heap ----------
 
@@ -289,6 +298,7 @@ func sortTag(sort string) string {
 }
 
 func (e *Engine) heapArr(s *State, name, sort string) Term {
+	e.heapTouch++
 	if t, ok := s.heap[name]; ok {
 		return t
 	}
@@ -1283,23 +1293,17 @@ func (e *Engine) msetVal(s *State, m MapV, k Term, v Val) {
 	}
 }
 
-func (e *Engine) keyTerm(v Val) Term {
+func (e *Engine) keyTerm(s *State, v Val) Term {
 	switch x := v.(type) {
 	case Term:
 		return x
 	case StrV:
 		if x.Const != nil {
-			panic("constant string map key unsupported")
+			return e.strConst(s, *x.Const)
 		}
 		return x.T
 	}
 	panic(fmt.Sprintf("map key %T", v))
-}
-
-func (e *Engine) strConst(s *State, c string) Term {
-	nm := fmt.Sprintf("str!%x", c)
-	s.defs = append(s.defs, fmt.Sprintf("(declare-const %s Str)", nm))
-	return Term{S: nm, Sort: "Str"}
 }
 
 // sliceWF assumes the type invariant of a slice header read from the (well-typed) heap.
